@@ -98,6 +98,20 @@ def real_scenarios(draw, with_faults=True, kinds=None, only=None, fault_share=7)
 
 
 @st.composite
+def keepalive_scenarios(draw):
+    """fault-free HTTP/1.1 over real sockets, 2-3 sequential requests; some responses are followed by a silent server-side close of the idle connection"""
+    sc = draw(real_scenarios(with_faults=False, kinds=[k for k in KINDS if k not in REFUSALS and not is_h2(k)]))
+    if len(sc["requests"]) < 2:
+        sc["requests"].append(dict(sc["requests"][0], tok="r9"))
+        sc["plans"]["r9"] = dict(sc["plans"][sc["requests"][0]["tok"]])
+    for r in sc["requests"]:
+        p = sc["plans"][r["tok"]]
+        if draw(st.integers(0, 2)) == 0 and p.get("framing") != "close":
+            p["idle_close"] = True
+    return sc
+
+
+@st.composite
 def upload_scenarios(draw):
     """fault-free, every request carries a body: bytes / iterator / 60 kB / 3 MB (partial socket writes, TLS record splitting, HTTP/2 flow control)"""
     sc = draw(real_scenarios(with_faults=False, kinds=[k for k in KINDS if k not in REFUSALS]))
@@ -178,6 +192,7 @@ def run_real(sc, variant=None):
     fault = dict(sc["fault"]) if sc.get("fault") and sc["fault"].get("kind") != "untrusted" else None
     # a small send buffer (a documented pool option) makes partial socket writes certain for the 3 MB uploads
     small = (bool(fault) and fault.get("kind") == "read-stall") or any(r["body"] == "huge" for r in sc["requests"])
+    idle_close = any(p.get("idle_close") for p in sc["plans"].values())
     rec = {"variant": variant}
     with warnings.catch_warnings(record=True) as caught:
         warnings.simplefilter("always", ResourceWarning)
@@ -198,6 +213,8 @@ def run_real(sc, variant=None):
                     times.append(time.monotonic() - t0)
                     o.pop("network_stream", None)
                     outs.append(o)
+                    if idle_close:
+                        net.wait_server_closes()
                 pool.close()
                 del pool
             else:
@@ -210,6 +227,8 @@ def run_real(sc, variant=None):
                         times.append(time.monotonic() - t0)
                         o.pop("network_stream", None)
                         outs.append(o)
+                        if idle_close:
+                            net.wait_server_closes()  # (blocks the loop for a moment: nothing else runs in it)
                     await pool.aclose()
 
                 if variant == "asyncio":
@@ -291,7 +310,7 @@ def truth(sc, req):
 def judge(sc, rec):
     """-> {prop: [violations]}, tags, fired"""
     kind = sc["kind"]
-    v = {"C02": [], "C06": [], "C15": [], "C16": [], "C10": [], "C03": []}
+    v = {"C02": [], "C06": [], "C15": [], "C16": [], "C10": [], "C03": [], "C09": []}
     f = sc.get("fault") or {}
     fk = f.get("kind")
     fired = bool(rec["fired"]) or (fk == "untrusted" and kind in TLS_KINDS)
@@ -359,6 +378,24 @@ def judge(sc, rec):
         unanswered = fk != "stall" or any(p["fault"] and p["sent"] < _needed(sc, rec, p) for p in rec["pipes"])
         if fk != "stall":
             v["C16"].append(V("C16", "timeout-not-applied", f"{what}: the peer never completed the {fk.split('-')[0]} step, yet every request succeeded", **base))
+    # ---- keep-alive over real sockets (C09): a connection the server has closed while it was idle is never used again; without any close a
+    # sequential caller reuses its connection
+    if not fired and not refusal and not h2:
+        closes_somewhere = False
+        for i, (req, out) in enumerate(zip(sc["requests"], rec["outs"])):
+            plan = norm_plan(sc["plans"][req["tok"]])
+            prev = [norm_plan(sc["plans"][r["tok"]]) for r in sc["requests"][:i] if r["host"] == req["host"] or sc.get("uds")]
+            if out["exc"] is not None and prev and prev[-1].get("idle_close") and not out["exc"]["name"].endswith("Timeout"):
+                v["C09"].append(V("C09", "stale-connection-used", f"{what}: request {i} raised {out['exc']['type']}: {out['exc']['msg'][:120]}; the server had closed the idle "
+                                  f"keep-alive connection (FIN delivered) before this request was made: it was handed a connection the server had already closed",
+                                  exc=out["exc"]["name"], **base))
+            if plan.get("idle_close") or plan["conn_close"] or plan["version"] == "1.0" or plan["framing"] == "close" or plan["status"] == 101:
+                closes_somewhere = True
+        if not closes_somewhere and all(o["exc"] is None for o in rec["outs"]):
+            hosts_used = {"a.test"} if sc.get("uds") else {r["host"] for r in sc["requests"]}
+            if len(rec["pipes"]) > len(hosts_used):
+                v["C09"].append(V("C09", "no-reuse", f"{what}: {len(sc['requests'])} sequential requests to {sorted(hosts_used)} with keep-alive responses used "
+                                  f"{len(rec['pipes'])} connections (to {[p['target'] for p in rec['pipes']]}): an idle, open connection was not reused", **base))
     # ---- what the server received for every request that succeeded (C03): method and body, byte for byte, exactly once
     seen = {}
     for p in rec["pipes"]:
@@ -803,7 +840,9 @@ def truncation_sweep(tier):
 def layer_for(prop_id, budget):
     from ..prop import Layer
 
-    if prop_id == "C03":
+    if prop_id == "C09":
+        strat = keepalive_scenarios
+    elif prop_id == "C03":
         strat = upload_scenarios
     elif prop_id == "C10":
         strat = lambda: real_scenarios(with_faults=False, kinds=TLS_KINDS)  # noqa: E731
